@@ -103,8 +103,32 @@ def check(prog: Program, rep: Report) -> None:
     if len(trashers) != 1:
         raise IdiomNotRecognised("TagActivator: trash routine not identified")
     tf = trashers[0]
-    loops = [n for n in body_without_docstring(tf) if isinstance(n, ast.For)]
     loc = Loc(FILE, tf.lineno, f"TagActivator.{tf.name}")
+    loops: List[ast.For] = []
+
+    def _blocks(stmts: List[ast.stmt]) -> None:
+        """the trash loop may sit in a branch of a top-level case distinction; a returning branch without any loop is judged here"""
+        loops.extend(n for n in stmts if isinstance(n, ast.For))
+        for st_ in stmts:
+            if not isinstance(st_, ast.If):
+                continue
+            for br in (st_.body, st_.orelse):
+                if not br:
+                    continue
+                has_loop = any(isinstance(x, (ast.For, ast.While, ast.ListComp, ast.GeneratorExp)) for y in br for x in ast.walk(y))
+                returns = any(isinstance(x, ast.Return) and x.value is not None for y in br for x in ast.walk(y))
+                if returns and not has_loop:
+                    single = [c for y in br for c in ast.walk(y) if isinstance(c, ast.Call) and isinstance(c.func, ast.Attribute)
+                              and c.func.attr in ("remove", "append", "pop", "discard", "add")
+                              and isinstance(c.func.value, ast.Subscript) and self_attr(c.func.value.value) in (running, not_running)]
+                    rep.ob("R9.3-trash-branch-stops-all-running", False if single else None, Loc(FILE, br[0].lineno, f"TagActivator.{tf.name}"),
+                           f"branch under `{norm(st_.test)[:120]}` returns without a loop over the trash list"
+                           + (f" and moves single handlers: {[norm(c)[:100] for c in single]}" if single else ""),
+                           "on every path the trash routine must stop ALL running handlers of EVERY trashed tagger; a branch that moves one "
+                           "handler element-wise leaves the other candidates of that tagger (computed from the old trajectory) in the scheduler")
+                else:
+                    _blocks(br)
+    _blocks(body_without_docstring(tf))
     if len(loops) != 1:
         rep.ob("R9.3-linear-trash", None, loc, tf.name, "idiom not recognised")
     else:
